@@ -162,9 +162,11 @@ func (r *UnitRun) fork(st *State, cond string, label string) (*State, *State) {
 	}
 	a := st.clone()
 	a.assume(cond)
+	a.branch = append(a.branch, cond)
 	a.trace = append(a.trace, label+"=T")
 	b := st
 	b.assume(not(cond))
+	b.branch = append(b.branch, not(cond))
 	b.trace = append(b.trace, label+"=F")
 	return a, b
 }
@@ -312,6 +314,10 @@ func (r *UnitRun) execReturn(st *State, s *ast.ReturnStmt) {
 	if st.dead {
 		return
 	}
+	if r.retHook != nil {
+		r.retHook(st, vals)
+		return
+	}
 	r.finish(st, vals, s)
 }
 
@@ -379,8 +385,8 @@ func (r *UnitRun) finish(st *State, vals []Val, n *ast.ReturnStmt) {
 
 func (r *UnitRun) errReturned(bound map[string]Val) bool {
 	for _, v := range bound {
-		if v.K == KErr && v.T == "false" {
-			return true
+		if v.K == KErr && v.T != "true" {
+			return true // an error (or a possibly non-nil error) is returned alongside: the result is not used
 		}
 	}
 	return false
